@@ -37,6 +37,9 @@ fn main() {
             std::process::exit(2);
         }
     };
+    if args.iter().any(|a| a == "--isolated") || std::env::var("VERIF_ISOLATED").is_ok() {
+        h::core::ISOLATED.store(true, std::sync::atomic::Ordering::Relaxed);
+    }
     match args[1].as_str() {
         "check" => {
             let max = flag("--max").and_then(|s| s.parse().ok());
@@ -63,7 +66,7 @@ fn main() {
             // judge one scenario on a thread with the scenario's stack size (see c02::judge_in_child)
             let path = std::path::PathBuf::from(args.get(3).cloned().unwrap_or_else(|| usage()));
             let sc = driver::load_scenario(&path);
-            let kib = sc.knobs.stack_kib.max(64);
+            let kib = if sc.knobs.stack_kib == 0 { 256 << 10 } else { sc.knobs.stack_kib.max(64) };
             let h = std::thread::Builder::new()
                 .stack_size(kib << 10)
                 .spawn(move || (def.judge)(&sc))
@@ -79,6 +82,7 @@ fn main() {
                     for n in &j.notes {
                         println!("CHILD-NOTE {n}");
                     }
+                    println!("CHILD-RUNS {}", j.runs.len());
                 }
                 Err(_) => std::process::exit(3),
             }
